@@ -133,6 +133,13 @@ def check_case(case):
             r.require(bool(np.all(true > smin) and np.all(true <= smax)), key + ":bounds-" + nm, "sintlmin exclusive, sintlmax inclusive (%s)" % nm,
                       [smin, smax], [float(true.min()), float(true.max())])
             r.require(bool(np.all(np.diff(true) >= -1e-12 * true[1:])), key + ":true-sorted-" + nm, "rows ordered by TRUE sin(theta)/lambda (%s)" % nm)
+        # by name, in spellings a user may write (upper case incl. the setting suffix, padded, blanks inside)
+        if bi == 0 and case.get("far", True):
+            nm = O.setting_names(sg.sgdic)[(no, cc)][-1]
+            for sp in (nm.upper(), "  " + nm + " ", " ".join(nm).upper() + "\n", "".join(list(nm.title()))):
+                Un, errn = G.call_lib(mod.genhkl_unique, cell, smin, smax, sgname=sp, output_stl=True)
+                okn = errn is None and np.asarray(Un).shape == U4.shape and bool(np.array_equal(np.asarray(Un, float), U4))
+                r.require(okn, key + ":by-name:%r" % sp, "genhkl_unique by name %r equals the call by number and setting" % sp, None, errn or np.asarray(Un).shape)
         if len(reff) >= 2:
             r.nontrivial.add(key)
         r.extra["families"] = r.extra.get("families", 0) + len(reff)
